@@ -12,6 +12,9 @@ def comment_text(c, salt):
     # a third of the documents use banner comments: several comments with exactly the same text
     if salt % 3 == 0 and (c["id"] + salt) % 2 == 0:
         return "# ----------" if c["style"] == "hash" else "/* TODO */"
+    if c["style"] == "hash" and (c["id"] * 5 + salt) % 11 == 0:
+        # a comment whose whole text is a block type name (as END comments are written, but anywhere)
+        return ["# LAYER", "# Symbol", "# metadata", "# STYLE", "# class"][(c["id"] + salt) % 5]
     if c["style"] == "hash":
         return "# c%d %s" % (c["id"], note)
     note = note.replace("*/", "* /")
